@@ -1153,14 +1153,59 @@ Proof.
   transitivity (sv_maxhdr (new_server dflt g)); [rewrite <- T; reflexivity | exact (Hh Hpos)].
 Qed.
 
-(* ... but not the same idle timeout: the HTTP/3 server's QUICConfig is never set *)
+(* ... and the same idle timeout (/repo a99152d): the HTTP/3 server's QUICConfig carries the TCP server's *)
 Definition site_idle7 : site :=
   {| s_read := (false, 0); s_rhdr := (false, 0); s_write := (false, 0); s_idle := (true, 7); s_maxhdr := 2048 |}.
 Definition dflt_srv : server := {| sv_read := 100; sv_rhdr := 100; sv_write := 200; sv_idle := 300; sv_maxhdr := 0 |}.
-Lemma h3_idle_timeout_refuted :
-  exists dflt g sv h3, new_servers dflt g true true true = (sv, Some h3) /\
-    set_values (map s_idle g) = [7] /\ sv_idle sv = 7 /\ h3_maxhdr h3 = 2048 /\ h3_idle h3 = 0.
-Proof. exists dflt_srv, [site_idle7]. eexists. eexists. vm_compute. repeat split; reflexivity. Qed.
+
+Lemma h3_idle_is_tcp_idle dflt g tls h2 quic sv h3 :
+  new_servers dflt g tls h2 quic = (sv, Some h3) ->
+  h3_idle h3 = if 0 <? sv_idle sv then sv_idle sv else 0.
+Proof.
+  intros H. unfold new_servers in H. cbv zeta in H. injection H as Hs Hq.
+  unfold ns_h3 in Hq. destruct (tls && h2 && quic); [|discriminate]. injection Hq as <-.
+  subst sv. reflexivity.
+Qed.
+
+Lemma merge_timeout_nonneg dflt (g : list tv) :
+  0 <= dflt -> (forall v, In v (set_values g) -> 0 <= v) -> 0 <= merge_timeout dflt g.
+Proof.
+  intros Hd Hpos. destruct (merge_timeout_spec dflt g Hpos) as (H1 & H2 & H3). cbv zeta in H1, H2, H3.
+  destruct (set_values g) as [|v0 vs] eqn:Es.
+  - rewrite H1 by reflexivity. exact Hd.
+  - destruct (existsb (fun v => 0 <? v) (v0 :: vs)) eqn:Ex.
+    + apply existsb_exists in Ex as (v & Hv & Hlt). apply Z.ltb_lt in Hlt.
+      destruct H3 as (_ & Hr & _); [exists v; split; assumption | lia].
+    + rewrite H2; [lia | discriminate |].
+      intros v Hv. pose proof (Hpos v Hv) as Hv0.
+      destruct (0 <? v) eqn:E; [|apply Z.ltb_ge in E; lia].
+      assert (Ht : existsb (fun v => 0 <? v) (v0 :: vs) = true).
+      { apply existsb_exists. exists v. split; assumption. }
+      congruence.
+Qed.
+
+(* every server of one listener carries the same idle timeout: the strictest one the sites configure, the default
+   only where no site sets one (0 on both = no idle timeout configured: `timeouts idle none` on every setting site) *)
+Lemma all_servers_same_idle_timeout dflt g tls h2 quic sv h3 :
+  new_servers dflt g tls h2 quic = (sv, Some h3) ->
+  0 <= sv_idle dflt -> (forall c, In c g -> 0 <= snd (s_idle c)) ->
+  h3_idle h3 = sv_idle sv /\
+  h3_idle h3 = merge_timeout (sv_idle dflt) (map s_idle g) /\
+  (forall c, In c g -> fst (s_idle c) = true -> honours (h3_idle h3) (snd (s_idle c)) = true).
+Proof.
+  intros H Hd Hpos.
+  pose proof (h3_idle_is_tcp_idle _ _ _ _ _ _ _ H) as Hq.
+  pose proof (new_servers_tcp dflt g tls h2 quic) as T. rewrite H in T. cbn [fst] in T.
+  destruct (new_server_fields dflt g) as (_ & _ & _ & Hi & _). cbv zeta in Hi. rewrite <- T in Hi.
+  assert (Hset : forall v, In v (set_values (map s_idle g)) -> 0 <= v).
+  { intros v Hv. unfold set_values in Hv. apply in_map_iff in Hv as (t & <- & Ht).
+    apply filter_In in Ht as [Ht _]. apply in_map_iff in Ht as (c & <- & Hc). apply Hpos. exact Hc. }
+  pose proof (merge_timeout_nonneg (sv_idle dflt) (map s_idle g) Hd Hset) as Hnn. rewrite <- Hi in Hnn.
+  assert (E : h3_idle h3 = sv_idle sv).
+  { rewrite Hq. destruct (0 <? sv_idle sv) eqn:El; [reflexivity|]. apply Z.ltb_ge in El. lia. }
+  split; [exact E|]. split; [rewrite E; exact Hi|].
+  intros c Hc Hs. rewrite E, Hi. apply merge_honours; [exact Hset | apply in_map; exact Hc | exact Hs].
+Qed.
 
 (* ---------- sequences of uploads through one counting upstream ---------- *)
 (* every request of a sequence is answered as it would be alone, and the failure counter never moves: an
